@@ -180,7 +180,9 @@ func c20RunStashCase(c *lib.Ctx, dir string, cs c20StashCase, reply string) *c20
 				}
 			}()
 			if op.Kind == "A" {
-				s.Add(c20ToRepl(op.Form))
+				rf := c20ToRepl(op.Form)
+				s.Add(rf)
+				c20Scribble(rf)
 			} else {
 				s.Clear(op.A, op.B)
 			}
@@ -445,6 +447,11 @@ func c20StashSweep() []c20StashCase {
 			cases = append(cases, c20StashCase{Cell: fmt.Sprintf("stash-clear/%d,%d", x, y), Guarded: true,
 				Ops: append(append([]c20Op{}, five...), c20Op{Kind: "C", A: x, B: y}, a("(after)"))})
 		}
+	}
+	// LineReader buffer boundaries (4096 bytes) in the stash file
+	for _, off := range []int{4095, 4096, 4097} {
+		content := "(a " + strings.Repeat("x", off-5) + ")\n\n(second \"é\"\n  2)\n\n"
+		cases = append(cases, c20StashCase{Cell: fmt.Sprintf("stash-linereader/nl-at-%d", off), Guarded: true, Stash0: &content, Ops: []c20Op{a("(d)")}})
 	}
 	// an existing stash file in the expanded and in the tab format
 	cases = append(cases, c20StashCase{Cell: "stash-init/expanded", Guarded: true, Stash0: c20Str("(a\n b)\n\n(c)\n\n"), Ops: []c20Op{a("(d)"), {Kind: "C", A: 0, B: 0}}})
